@@ -204,9 +204,11 @@ def _get_active_backend(
                 f"joblib backend instead of {backend.__class__.__name__} "
                 "as the latter does not provide shared memory semantics."
             )
-        # Force to n_jobs=1 by default
+        # Force to n_jobs=1 by default when the backend set by the context
+        # manager is replaced: its n_jobs was meant for that backend.
         thread_config = backend_config.copy()
-        thread_config["n_jobs"] = 1
+        if explicit_backend:
+            thread_config["n_jobs"] = 1
         return sharedmem_backend, thread_config
 
     if force_processes:
